@@ -1278,25 +1278,11 @@ typename db<Key, Value>::iterator& db<Key, Value>::iterator::seek(
         // Note: [node] has not been pushed onto the stack yet!
         auto nxt = inode->gte_key_byte(node_type, remaining_key[0]);
         if (!nxt) {
-          // Pop entries off the stack until we find one with a
-          // right-sibling of the path we took to this node and then
-          // do a left-most descent under that right-sibling. If there
-          // is no such parent, we will wind up with an empty stack
-          // (aka the end() iterator) and return that state.
-          if (!empty()) pop();
-          while (!empty()) {
-            const auto& centry = top();
-            const auto cnode{centry.node};  // possible parent from the stack
-            auto* const icnode{cnode.template ptr<inode_type*>()};
-            const auto cnxt = icnode->next(
-                cnode.type(), centry.child_index);  // right-sibling.
-            if (cnxt) {
-              auto nchild = icnode->get_child(cnode.type(), centry.child_index);
-              return left_most_traversal(nchild);
-            }
-            pop();
-          }
-          return *this;  // stack is empty (aka end()).
+          // Every key under [node] is ordered before the search key:
+          // position on the right-most leaf under [node] and step to
+          // its successor (if there is none we wind up with an empty
+          // stack, aka the end() iterator).
+          return right_most_traversal(node).next();
         }
         const auto& tmp = nxt.value();  // unwrap.
         const auto child_index = tmp.child_index;
@@ -1309,24 +1295,11 @@ typename db<Key, Value>::iterator& db<Key, Value>::iterator::seek(
       // immediate precessor of the desired key in the data.
       auto nxt = inode->lte_key_byte(node_type, remaining_key[0]);
       if (!nxt) {
-        // Pop off the current entry until we find one with a
-        // left-sibling and then do a right-most descent under that
-        // left-sibling.  In the extreme case there is no such
-        // previous entry and we will wind up with an empty stack.
-        if (!empty()) pop();
-        while (!empty()) {
-          const auto& centry = top();
-          const auto cnode{centry.node};  // possible parent from stack
-          auto* const icnode{cnode.template ptr<inode_type*>()};
-          const auto cnxt =
-              icnode->prior(cnode.type(), centry.child_index);  // left-sibling.
-          if (cnxt) {
-            auto nchild = icnode->get_child(cnode.type(), centry.child_index);
-            return right_most_traversal(nchild);
-          }
-          pop();
-        }
-        return *this;  // stack is empty (aka end()).
+        // Every key under [node] is ordered after the search key:
+        // position on the left-most leaf under [node] and step to its
+        // predecessor (if there is none we wind up with an empty
+        // stack, aka the end() iterator).
+        return left_most_traversal(node).prior();
       }
       const auto& tmp = nxt.value();  // unwrap.
       const auto child_index{tmp.child_index};
